@@ -856,6 +856,11 @@ void DGXMLScanner::scanDocTypeDecl()
     XMLCh*  sysId = 0;
     XMLCh*  pubId = 0;
 
+    // Insure that the ids get cleaned up, if they get allocated (also when
+    // the reader manager throws while we look past them)
+    ArrayJanitor<XMLCh> janSysId(sysId, fMemoryManager);
+    ArrayJanitor<XMLCh> janPubId(pubId, fMemoryManager);
+
     DTDScanner dtdScanner
     (
         (DTDGrammar*) fGrammar
@@ -893,7 +898,9 @@ void DGXMLScanner::scanDocTypeDecl()
 
         // Get copies of the ids we got
         pubId = XMLString::replicate(bbPubId.getRawBuffer(), fMemoryManager);
+        janPubId.reset(pubId, fMemoryManager);
         sysId = XMLString::replicate(bbSysId.getRawBuffer(), fMemoryManager);
+        janSysId.reset(sysId, fMemoryManager);
 
         // Skip spaces and check again for the opening of an internal subset
         fReaderMgr.skipPastSpaces();
@@ -903,10 +910,6 @@ void DGXMLScanner::scanDocTypeDecl()
             hasIntSubset = true;
         }
     }
-
-    // Insure that the ids get cleaned up, if they got allocated
-    ArrayJanitor<XMLCh> janSysId(sysId, fMemoryManager);
-    ArrayJanitor<XMLCh> janPubId(pubId, fMemoryManager);
 
     //  If we have a doc type handler and advanced callbacks are enabled,
     //  call the doctype event.
